@@ -196,13 +196,13 @@ pub fn parse_priority_payload(stream_id: u32, payload: &[u8]) -> Option<Http2Pri
 /// - `:scheme`
 /// - `:status` (responses only)
 fn extract_pseudo_header_order(frames: &[Http2Frame]) -> Vec<PseudoHeader> {
-    // Find first HEADERS frame
-    let headers_frame = frames
+    // Find first HEADERS frame and assemble its header block (RFC 7540 §6.2/§6.10)
+    let position = frames
         .iter()
-        .find(|f| f.frame_type == Http2FrameType::Headers && f.stream_id > 0);
+        .position(|f| f.frame_type == Http2FrameType::Headers && f.stream_id > 0);
 
-    if let Some(frame) = headers_frame {
-        if let Ok(headers) = decode_headers(&frame.payload) {
+    if let Some(block) = position.and_then(|i| crate::http2_parser::header_block(&frames[i..])) {
+        if let Ok(headers) = decode_headers(&block) {
             return headers
                 .iter()
                 .filter(|h| h.name.starts_with(':'))
